@@ -35,7 +35,13 @@ Emit == IF phase = "done" THEN PrintT(<<"H", delivered, res, st.ver>>) ELSE TRUE
 \* the verdict: refused with VersionError exactly when the declarative verdict is an error
 \* level 0 is documented to skip the cross-check between a VN header and the content: at that
 \* level the claim is made for the documents without a VN header only
-Claimed == Cat.cfg.vlevel > 0 \/ \A k \in DOMAIN delivered : VNs(LineOf(delivered[k])) = {}
+\* (a document whose header lines contradict each other in another single-definition tag, TS, is
+\* refused for that reason -- not a matter of the version)
+TSs(l) == {l.tags[i] : i \in {j \in DOMAIN l.tags : l.tagn[j] = "TS"}}
+TSConflict == \E a, b \in DOMAIN delivered :
+                \E x \in TSs(LineOf(delivered[a])), y \in TSs(LineOf(delivered[b])) : x # y
+Claimed == /\ Cat.cfg.vlevel > 0 \/ \A k \in DOMAIN delivered : VNs(LineOf(delivered[k])) = {}
+           /\ ~TSConflict
 Agrees == (phase = "done" /\ Claimed) =>
    /\ (res # "ok") = DeclError(Cat.cfg.version, Lines)
    /\ (res # "ok" => res = "VersionError")
@@ -52,7 +58,7 @@ LoadAgrees ==
   LET ls == SeqMap(LAMBDA i : LineOf(i), delivered)
       outs == Load(Init0(Cat.cfg), ls)
       clean == \A o \in outs : PlaceholderIds(o.st) = {} /\ VirtLinkKeys(o.st) = {} IN
-  (delivered # <<>> /\ Cat.cfg.vlevel > 0) =>
+  (delivered # <<>> /\ Cat.cfg.vlevel > 0 /\ ~TSConflict) =>
      /\ DeclErrorD(Cat.cfg.version, Cat.cfg.dialect, Lines) => \A o \in outs : o.res # "ok"
      /\ (\E o \in outs : o.res = "VersionError") =>
             (DeclErrorD(Cat.cfg.version, Cat.cfg.dialect, Lines)
